@@ -1,0 +1,127 @@
+//go:build verif
+
+package consensus
+
+// Add-only accessors for the /verif correspondence harness (build tag `verif`).
+// They let an external program drive one consensus.State synchronously through the real
+// handleMsg / handleTimeout / handleTxsAvailable and drain the internal message queue in FIFO
+// order, with a ticker that only records what was scheduled. Nothing here changes behaviour.
+
+import (
+	"fmt"
+
+	cstypes "github.com/tendermint/tendermint/consensus/types"
+	"github.com/tendermint/tendermint/libs/log"
+	"github.com/tendermint/tendermint/p2p"
+	tmproto "github.com/tendermint/tendermint/proto/tendermint/types"
+	"github.com/tendermint/tendermint/types"
+)
+
+// VerifTimeout is a timeout the state machine asked the ticker to schedule.
+type VerifTimeout struct {
+	Height int64
+	Round  int32
+	Step   cstypes.RoundStepType
+}
+
+type verifTicker struct {
+	c  chan timeoutInfo
+	on func(VerifTimeout)
+}
+
+func (t *verifTicker) Start() error             { return nil }
+func (t *verifTicker) Stop() error              { return nil }
+func (t *verifTicker) Chan() <-chan timeoutInfo { return t.c }
+func (t *verifTicker) SetLogger(log.Logger)     {}
+func (t *verifTicker) ScheduleTimeout(ti timeoutInfo) {
+	if t.on != nil {
+		t.on(VerifTimeout{ti.Height, ti.Round, ti.Step})
+	}
+}
+
+// VerifNode wraps a State that is never started: the caller is the receive routine.
+type VerifNode struct {
+	cs     *State
+	ticker *verifTicker
+	height int64
+}
+
+// NewVerifNode installs a ticker on cs that never fires and reports every ScheduleTimeout call to
+// onSchedule (cs must not be started).
+func NewVerifNode(cs *State, onSchedule func(VerifTimeout)) *VerifNode {
+	t := &verifTicker{c: make(chan timeoutInfo), on: onSchedule}
+	cs.SetTimeoutTicker(t)
+	return &VerifNode{cs: cs, ticker: t, height: cs.Height}
+}
+
+// run executes f and then handles everything on the internal queue, in order, the way
+// receiveRoutine would; a panic of the state machine is returned as a string (receiveRoutine
+// recovers it and halts). Processing stops once the height has moved on.
+func (n *VerifNode) run(f func()) (panicked string) {
+	defer func() {
+		if r := recover(); r != nil {
+			panicked = fmt.Sprint(r)
+		}
+	}()
+	f()
+	for {
+		n.drainStats()
+		if n.cs.Height != n.height {
+			return ""
+		}
+		select {
+		case mi := <-n.cs.internalMsgQueue:
+			n.cs.handleMsg(mi)
+		default:
+			return ""
+		}
+	}
+}
+
+func (n *VerifNode) drainStats() {
+	for {
+		select {
+		case <-n.cs.statsMsgQueue:
+		default:
+			return
+		}
+	}
+}
+
+func (n *VerifNode) HandleProposal(p *types.Proposal, peer p2p.ID) string {
+	return n.run(func() { n.cs.handleMsg(msgInfo{&ProposalMessage{p}, peer}) })
+}
+
+func (n *VerifNode) HandleBlockPart(height int64, round int32, part *types.Part, peer p2p.ID) string {
+	return n.run(func() { n.cs.handleMsg(msgInfo{&BlockPartMessage{height, round, part}, peer}) })
+}
+
+func (n *VerifNode) HandleVote(v *types.Vote, peer p2p.ID) string {
+	return n.run(func() { n.cs.handleMsg(msgInfo{&VoteMessage{v}, peer}) })
+}
+
+func (n *VerifNode) HandleTimeout(height int64, round int32, step cstypes.RoundStepType) string {
+	return n.run(func() { n.cs.handleTimeout(timeoutInfo{0, height, round, step}, n.cs.RoundState) })
+}
+
+func (n *VerifNode) HandleTxsAvailable() string {
+	return n.run(func() { n.cs.handleTxsAvailable() })
+}
+
+// SetPeerMaj23 does what the reactor does on a VoteSetMaj23Message of the current height.
+func (n *VerifNode) SetPeerMaj23(round int32, t tmproto.SignedMsgType, peer p2p.ID, id types.BlockID) error {
+	n.cs.mtx.Lock()
+	defer n.cs.mtx.Unlock()
+	return n.cs.Votes.SetPeerMaj23(round, t, peer, id)
+}
+
+// RS gives read access to the live round state (single-threaded use only).
+func (n *VerifNode) RS() *cstypes.RoundState { return &n.cs.RoundState }
+
+// CreateProposalBlock is what defaultDecideProposal would propose with no valid block.
+func (n *VerifNode) CreateProposalBlock() (*types.Block, *types.PartSet) {
+	return n.cs.createProposalBlock()
+}
+
+// InternalQueueLen reports how many own messages are still queued.
+func (n *VerifNode) InternalQueueLen() int { return len(n.cs.internalMsgQueue) }
